@@ -13,8 +13,38 @@ sees state left by another one.  Nothing is judged here: the recorded trace is v
 (specs/LockstepTrace.tla)."""
 import json
 import random
+import signal
 
 from . import ser, c02isa
+
+CPU_LIMIT = 20        # seconds of CPU time one route of one prefix may take (a hang is an observation, not a harness crash)
+
+
+class RouteTimeout(Exception):
+    pass
+
+
+def _on_timer(signum, frame):
+    raise RouteTimeout("route exceeded %d s of CPU time" % CPU_LIMIT)
+
+
+class limit(object):
+    """CPU-time limit around one route (ITIMER_VIRTUAL: only this process' own user time counts)"""
+
+    def __enter__(self):
+        try:
+            self.old = signal.signal(signal.SIGVTALRM, _on_timer)
+            signal.setitimer(signal.ITIMER_VIRTUAL, CPU_LIMIT)
+            self.on = True
+        except (ValueError, AttributeError):      # not in the main thread
+            self.on = False
+        return self
+
+    def __exit__(self, *a):
+        if self.on:
+            signal.setitimer(signal.ITIMER_VIRTUAL, 0)
+            signal.signal(signal.SIGVTALRM, self.old)
+        return False
 
 MAXCAND = 48          # touched memory bytes observed per case (first ones, sorted by address)
 MAXTREE = 1500        # nodes: larger symbolic maps are recorded without their trees (clause RefEval skipped)
@@ -55,6 +85,43 @@ def mem_leaves(t, out):
     elif isinstance(t, list):
         for x in t:
             mem_leaves(x, out)
+
+
+def expr_size(e, limit, depth=0):
+    """number of nodes of an amoco expression seen as a TREE (shared sub-terms counted every time, as a
+    serialisation would expand them), cut off at `limit`: nested `mods` of loads grow exponentially, and
+    a map that large is recorded without its trees.  Attribute reads only."""
+    if limit <= 0 or depth > 150:
+        return 1 << 30
+    if not ser.is_exp(e):
+        return 1
+    n = 1
+    k = ser.kind(e)
+    subs = []
+    if k == "slc":
+        subs = [e.x]
+    elif k == "comp":
+        subs = list(e.parts.values())
+    elif k == "tst":
+        subs = [e.tst, e.l, e.r]
+    elif k == "op":
+        subs = [e.l, e.r]
+    elif k == "uop":
+        subs = [e.r]
+    elif k == "ptr":
+        subs = [e.base]
+    elif k == "mem":
+        subs = [e.a]
+        for (l, v) in (e.mods or []):
+            subs.append(l)
+            subs.append(v)
+    elif k == "vec":
+        subs = list(e.l)
+    for x in subs:
+        n += expr_size(x, limit - n, depth + 1)
+        if n > limit:
+            return 1 << 30
+    return n
 
 
 class Case(object):
@@ -179,10 +246,11 @@ class Case(object):
         """returns (raised, state)"""
         self.configure(noal=True if exact else None)
         try:
-            seq = self.decode_all(k)
-            s = self.isa.build_state(self.plan, self.regobjs)
-            for i in seq:
-                i(s)
+            with limit():
+                seq = self.decode_all(k)
+                s = self.isa.build_state(self.plan, self.regobjs)
+                for i in seq:
+                    i(s)
             return "", s
         except Exception as e:
             return exc_name(e), None
@@ -192,26 +260,30 @@ class Case(object):
         from amoco.cas.mapper import mapper
         self.configure()
         try:
-            seq = self.decode_all(k)
-            m = mapper()
-            for i in seq:
-                i(m)
+            with limit():
+                seq = self.decode_all(k)
+                m = mapper()
+                for i in seq:
+                    i(m)
         except Exception as e:
             return "build:" + exc_name(e), None, None, None
         try:
-            s0 = self.isa.build_state(self.plan, self.regobjs)
-            sb = s0 >> m
+            with limit():
+                s0 = self.isa.build_state(self.plan, self.regobjs)
+                sb = s0 >> m
         except Exception as e:
             return "apply:" + exc_name(e), m, None, None
         try:
-            s0 = self.isa.build_state(self.plan, self.regobjs)
-            se = m.eval(s0)
+            with limit():
+                s0 = self.isa.build_state(self.plan, self.regobjs)
+                se = m.eval(s0)
         except Exception as e:
             se = "eval:" + exc_name(e)
         return "", m, sb, se
 
     # -- one case ---------------------------------------------------------------------------------
-    def run(self):
+    def draw(self):
+        """choose the instruction sequence and the start state (everything random happens here)"""
         isa, rng = self.isa, self.rng
         self.configure()
         n = rng.randrange(1, self.nmax + 1)
@@ -226,25 +298,59 @@ class Case(object):
             self.code.append(d[0])
             self.mnem.append(str(d[1]))
         if not self.code:
-            return None
-        n = len(self.code)
-        # registers met in operands (bound too, when the env namespace is too large to bind everything)
-        extra = []
+            return False
+        extra = self.operand_regs()[0]
+        self.plan = isa.plan_state(rng, extra, overlap=(not self.noal) and rng.random() < 0.5)
+        return True
+
+    def operand_regs(self):
+        """registers met in the operands of the sequence (bound too, when the env namespace is too large
+        to bind everything), and their names per instruction"""
+        extra, per = [], []
         try:
             from amoco.cas.expressions import symbols_of
-            for i in self.decode_all(n):
+            for i in self.decode_all(len(self.code)):
+                names = []
                 for o in i.operands:
                     if ser.is_exp(o):
                         try:
-                            extra += [x for x in symbols_of(o) if x._is_reg]
+                            for x in symbols_of(o):
+                                if x._is_reg:
+                                    extra.append(x)
+                                    names.append(str(x.ref))
                         except Exception:
                             pass
+                per.append(sorted(set(names)))
         except Exception:
             pass
+        return extra, per
+
+    @classmethod
+    def from_trace(cls, isa, t, deep=None):
+        """the case recorded in trace t (same bytes, same start state, same configuration)"""
+        c = cls(isa, None, t["t"], t["noal"], t["mt"], t["variant"], t.get("deepflag", 0) if deep is None else deep)
+        c.code = [bytes(b) for b in t["code"]]
+        c.mnem = list(t["seq"])
+        c.plan = {"regs": [[r["n"], r["w"], ser.unlimbs(r["v"])] for r in t["regs0"]],
+                  "mem": [[m["s"], list(m["b"])] for m in t["mem0"]]}
+        return c
+
+    def run(self):
+        if not self.draw():
+            return None
+        return self.execute()
+
+    def execute(self):
+        isa = self.isa
+        self.configure()
+        n = len(self.code)
+        extra, opnames = self.operand_regs()
         self.psz = isa.pointer_size()
-        self.plan = isa.plan_state(rng, extra, overlap=(not self.noal) and rng.random() < 0.5)
         bases = isa.base_registers(extra)
         self.regobjs = dict((str(r.ref), r) for r in bases)
+        for o in isa.arch_objects():
+            if o._is_reg and str(o.ref) not in self.regobjs:
+                self.regobjs[str(o.ref)] = o
         self.mem0 = {}
         for start, data in self.plan["mem"]:
             for j, b in enumerate(data):
@@ -291,36 +397,60 @@ class Case(object):
         steps = []
         for (k, ra, sa, rx, sx, rb, m, sb, se) in runs:
             st = {"k": k, "ra": ra, "rb": rb, "rx": rx, "deep": 0}
-            st["A"] = self.observe_regs(sa) if sa is not None else []
-            st["mA"] = self.observe_mem(sa, cands) if sa is not None else []
-            st["X"] = self.observe_regs(sx) if sx is not None else []
-            st["mX"] = self.observe_mem(sx, cands) if sx is not None else []
-            st["B"] = self.observe_regs(sb) if sb is not None else []
-            st["mB"] = self.observe_mem(sb, cands) if sb is not None else []
+
+            def obs(route, fn, *a):
+                # reading a value back is an API call too: it may raise or hang, which is then what the route did
+                try:
+                    with limit():
+                        return fn(*a)
+                except Exception as e:
+                    if not st[route]:
+                        st[route] = "observe:" + exc_name(e)
+                    return []
+            st["A"] = obs("ra", self.observe_regs, sa) if sa is not None else []
+            st["mA"] = obs("ra", self.observe_mem, sa, cands) if sa is not None else []
+            st["X"] = obs("rx", self.observe_regs, sx) if sx is not None else []
+            st["mX"] = obs("rx", self.observe_mem, sx, cands) if sx is not None else []
+            st["B"] = obs("rb", self.observe_regs, sb) if sb is not None else []
+            st["mB"] = obs("rb", self.observe_mem, sb, cands) if sb is not None else []
             if isinstance(se, str):
                 st["re"] = se
                 st["E"] = []
             else:
                 st["re"] = ""
-                st["E"] = self.observe_regs(se) if se is not None else []
+                st["E"] = obs("re", self.observe_regs, se) if se is not None else []
+            if st["ra"] or st["rb"] or st["rx"]:
+                for f in ("A", "mA", "X", "mX", "B", "mB", "E"):
+                    st[f] = []
             st["map"] = []
             st["acc"] = []
             st["accok"] = 1
-            if m is not None:
+            if m is not None and (self.noal or self.deep):
                 items = []
+                small = True
                 try:
+                    budget = MAXTREE * 4
                     for loc, v in m:
-                        items.append({"loc": ser.tree(loc), "val": ser.tree(v)})
+                        budget -= expr_size(loc, budget) + expr_size(v, budget)
+                        if budget <= 0:
+                            small = False
+                            break
+                    if small:
+                        for loc, v in m:
+                            items.append({"loc": ser.tree(loc), "val": ser.tree(v)})
                 except Exception:
-                    items = []
+                    items, small = [], False
                 trees = [x["val"] for x in items] + [x["loc"] for x in items]
                 if self.noal:
-                    try:
-                        st["acc"] = self.accesses(m, trees)
-                    except Exception:
-                        st["acc"] = []
+                    if small:
+                        try:
+                            st["acc"] = self.accesses(m, trees)
+                        except Exception:
+                            st["acc"] = []
+                            st["accok"] = 0
+                    else:
                         st["accok"] = 0
-                if self.deep and tree_size(items) <= MAXTREE:
+                if self.deep and small and tree_size(items) <= MAXTREE:
                     st["map"] = items
                     st["deep"] = 1
             steps.append(st)
@@ -329,6 +459,7 @@ class Case(object):
                 "regs0": [{"n": nm, "w": w, "v": lim(v, w)} for nm, w, v in self.plan["regs"]],
                 "mem0": [{"s": s, "b": b} for s, b in self.plan["mem"]],
                 "seq": self.mnem, "code": [list(b) for b in self.code], "ncand": ncand,
+                "opnds": opnames, "deepflag": 1 if self.deep else 0,
                 "steps": steps}
 
 
@@ -352,4 +483,23 @@ def make_cases(args):
             t = {"t": tid0 + j, "isa": name, "harness_error": "%s: %s" % (type(e).__name__, e)}
         if t is not None:
             out.append(t)
+    return out
+
+
+def rerun_cases(traces, deep=None):
+    """re-execute recorded cases (same bytes / start state / configuration) on the amoco that is importable
+    now; returns new traces with the same ids"""
+    c02isa.quiet()
+    out = []
+    isas = {}
+    for t in traces:
+        name = t["isa"]
+        try:
+            if name not in isas:
+                isas[name] = c02isa.Isa(name)
+            c = Case.from_trace(isas[name], t, deep)
+            nt = c.execute()
+        except Exception as e:
+            nt = {"t": t["t"], "isa": name, "harness_error": "%s: %s" % (type(e).__name__, e)}
+        out.append(nt)
     return out
